@@ -6,6 +6,20 @@ NOTES = ('All checks are ./check <id>; each rebuilds a source-only overlay from 
 NOT_CLAIMED = {}
 
 PROPS = {
+    'C19': {
+        'modules': ['contracts.C19_concurrency'],
+        'level': 'other',
+        'level_text': 'SUFFICIENT CONDITIONS only (no schedules are explored): lock discipline, double check and publication order of the lazy router compile '
+                      '(the real _compile_and_find executed with a ghost lock, including another thread finishing the compile while this one waits); frame '
+                      'conditions on the extracted AST of every function of the request path (no store to an attribute of the app/router, no global); '
+                      'per-call allocation of req/resp/params/dependent stack; process-wide caches memoise functions without shared side effects.',
+        'level_note': 'Assumes CPython attribute reads/writes are atomic and in program order, a correct threading.Lock, thread-safe functools.lru_cache, and user '
+                      'callables without shared state. The serialisability statement itself is not decided; category other says so.',
+        'technique': 'contract-based sufficient conditions: ghost-lock contract on the real lazy-compile function (symbolic execution, z3) plus frame (ownership) '
+                     'conditions checked on the extracted AST of the request path',
+        'explanation': 'Contracts cannot quantify over thread schedules. This check proves the lock-invariant and ownership conditions under which concurrent requests '
+                       'cannot interfere (see assumptions); it does not explore interleavings.',
+    },
     'C18': {
         'modules': ['contracts.C18_ws_buffer'],
         'level': 'proof',
